@@ -43,6 +43,14 @@
 #include <utility>
 #include <vector>
 #include "vf.h"
+#ifdef VF_INSTANTIATE_STRING
+// With -fno-inline the small std::string members are no longer inlined and libstdc++ declares them
+// `extern template`; an explicit instantiation definition makes this TU carry the real libstdc++ code.
+template class std::allocator<char>;
+template class std::basic_string<char>;
+#endif
+#define VF_IOMODEL_DEFINE 1
+#include "iomodel.h"      /* capture model of iostream; renames ostream/cout/cerr/... for the code below */
 #define private public
 #define protected public
 #endif
